@@ -1,4 +1,49 @@
+import Spok.Lemmas.RT.Assemble
+import Spok.Lemmas.RT.Comment
+import Spok.Lemmas.RT.Assign
+import Spok.Lemmas.RT.Task
+import Spok.Lemmas.RT.Format
 import Spok.Judge.Syntax
-/-! # Property C06 — theorems (under construction) -/
+/-! # Property C06 — parsing recovers exactly the structure written, in every admissible layout
+
+`Doc t txt` (`Syntax/Render.lean`) says that `txt` is the tree `t` written out in some layout the
+syntax admits: any whitespace (blanks, tabs, LF, CRLF, lone CR, Unicode spaces) before, between and
+after statements and around punctuation; LF or CRLF line ends; optional trailing commas; a single
+output bare or parenthesised; one-line or multi-line bodies with optional carriage returns before the
+newlines and at most one blank before the closing brace; names and strings with non-ASCII runes.  The
+relation is purely syntactic — its side conditions are about which runes a name, a string, a comment or
+a command may contain and which whitespace may stand in which slot.
+
+`C06` states that the model of lexer + parser returns exactly `t`, with no error, for EVERY such text:
+every tree, every size, every choice of whitespace.  It is assembled from the lexing lemmas per
+statement kind (`Lemmas/RT/Comment, Assign, Paren, Task`), the parser lemmas on token views
+(`Lemmas/RT/ParseViews`) and an induction over the file (`Lemmas/RT/Assemble`). -/
 namespace Spok.Props.C06
+open Spok
+
+/-- **C06** (rune level): any admissible layout of a tree parses to exactly that tree. -/
+theorem C06 (t : Tree) (txt : List Rune) (h : Doc t txt) : parseRunes txt = ⟨t, none⟩ :=
+  C06_of_specs lexStmt_comment lexStmt_assign (lexStmt_task lexParen_spec) t txt h
+
+/-- **C06** (byte level): a byte string whose decoding is an admissible layout of `t` parses to `t`. -/
+theorem C06_bytes (t : Tree) (bytes : List UInt8) (h : Doc t (decodeAll bytes)) : parse bytes = ⟨t, none⟩ := by
+  unfold parse; exact C06 t _ h
+
+/-- the judge accepts the model: on an admissible layout the model's outcome is the expected tree -/
+theorem judge_accepts_model (t : Tree) (bytes : List UInt8) (h : Doc t (decodeAll bytes)) :
+    Judge.c06 t (.ok (parse bytes).tree) = true := by
+  rw [C06_bytes t bytes h]; simp [Judge.c06]
+
+/-- the three lexing specifications the assembly rests on, exported for the axiom audit -/
+theorem lexing_specs : LexStmtSpec Node.isComment ∧ LexStmtSpec Node.isAssign ∧ LexStmtSpec Node.isTask ∧ LexParenSpec :=
+  ⟨lexStmt_comment, lexStmt_assign, lexStmt_task lexParen_spec, lexParen_spec⟩
+
+/-! ## non-vacuity: the formatter's output for a tree with every kind of statement is an admissible
+layout (so `Doc` is inhabited by non-trivial texts), and the theorem applies to it -/
+
+example : Doc (norm Fmt.exTree) (format Fmt.exTree) := renders_format _ Fmt.exTree_wf
+
+example : parseRunes (format Fmt.exTree) = ⟨norm Fmt.exTree, none⟩ :=
+  C06 _ _ (renders_format _ Fmt.exTree_wf)
+
 end Spok.Props.C06
